@@ -40,6 +40,10 @@ def run(ctx, R, tier):
     for f in (reg, unreg):
         cfg = ctx.cfg(f)
         muts = [(st, t, k) for st, t, k in stores_in(f.node) if isinstance(t, ast.Subscript) and registry_expr(t.value)]
+        from ..engine.context import enclosing_stmt as _es
+        for c, _ in ctx.cg.calls_of(f):
+            if isinstance(c.func, ast.Attribute) and c.func.attr in ("pop", "popitem", "clear", "update", "setdefault", "__delitem__", "__setitem__") and registry_expr(c.func.value):
+                muts.append((_es(c), c, "del" if c.func.attr in ("pop", "popitem", "clear", "__delitem__") else "assign"))
         if not muts:
             raise AnalysisError("%s: registry mutation vanished" % f.qualname)
         for st, t, k in muts:
